@@ -18,6 +18,16 @@
 //             is a byte) and scl::Error: RvPacketStream<UInt, TxId, ByteEnable, Error>.  Plan lines then have a 7th field,
 //             the byte enables as one character per digit (digit 0 first), and an 8th, the error bit; the E lines carry the
 //             same two columns on each side (undefined enable bits are printed as X).
+//   sig=rs|v|s : other stream signatures of the library (no stall / fifo taps; prod=seq):
+//             rs = RsPacketStream<UInt, TxId>  (Ready, Sop, Eop -- NO Valid: valid() is the library's derived accessor)
+//             v  = VPacketStream<UInt, TxId>   (Valid, Eop -- no Ready: no back pressure, ready_out of the plan is ignored)
+//             s  = SPacketStream<UInt, TxId>   (Sop, Eop -- neither Ready nor Valid)
+//             For rs / s the first field of the P and E lines is SOP (driven on the first beat of every packet, derived
+//             by the harness from the eop of the previous beat), not valid.  valid_out is what the library's accessor
+//             valid(out) says (pinned out), and the E lines get two more output columns: sop_out ('-' while valid_out = 0)
+//             and the raw value of the sop(out) signal in every cycle (not produced by the model; used by the oracle to
+//             decide independently of valid() whether a beat is on offer).
+//             ready_in is printed as 1 for streams without Ready.
 //   eb=1    : the stream additionally carries scl::EmptyBits (RvPacketStream<UInt, TxId, EmptyBits>); the plan lines then
 //             have a 7th field, the emptyBits value of the beat, and the E lines one more column on each side.
 //   hold=1  : the producer keeps valid/payload/eop/meta of a beat that was offered but not accepted
@@ -58,6 +68,7 @@ struct Case {
 	std::string id;
 	size_t w = 4, mw = 3, min = 1, n = 0, eopg = 0;
 	bool hold = true, polite = true, pp = true, eb = false, seq = false, be = false;
+	std::string sig;
 	std::vector<std::string> chain;
 	std::vector<PlanLine> plan;
 };
@@ -283,9 +294,116 @@ void runCaseT(const Case &c, std::ostream &out)
 	s.advance(hlim::ClockRational(c.plan.size() + 4, 1) / clk.absoluteFrequency());
 }
 
+
+// ---------------------------------------------------------------------------------------------------------------------
+// other stream signatures (sig=rs|v|s)
+template<class ST, bool REDUCE> struct SigStages {
+	static std::unique_ptr<ST> apply(const std::string &kind, size_t arg, ST &cur, size_t &digits, size_t w)
+	{
+		using namespace gtry::scl::strm;
+		constexpr bool hasReady = ST::template has<scl::Ready>();
+		if (kind == "rd") return std::unique_ptr<ST>(new ST(regDownstream(std::move(cur))));
+		if (kind == "rb") return std::unique_ptr<ST>(new ST(regDownstreamBlocking(std::move(cur))));
+		if (kind == "dl") return std::unique_ptr<ST>(new ST(delay(std::move(cur), arg)));
+		if (kind == "px") { digits *= arg; return std::unique_ptr<ST>(new ST(widthExtend(std::move(cur), BitWidth(w * digits)))); }
+		// regReady / regDecouple / fifo assign valid(ret) and do not compile for streams without a Valid signal
+		if constexpr (hasReady) {
+			if constexpr (REDUCE) {
+				if (kind == "re") { if (!arg || digits % arg) throw std::runtime_error("harness: ratio"); digits /= arg; return std::unique_ptr<ST>(new ST(reduceWidth(std::move(cur), BitWidth(w * digits)))); }
+				if (kind == "pr") { if (!arg || digits % arg) throw std::runtime_error("harness: ratio"); digits /= arg; return std::unique_ptr<ST>(new ST(widthReduce(std::move(cur), BitWidth(w * digits)))); }
+			}
+		}
+		if constexpr (ST::template has<scl::Valid>()) {
+			if (kind == "ex") { digits *= arg; return std::unique_ptr<ST>(new ST(extendWidth(std::move(cur), BitWidth(w * digits)))); }
+		}
+		throw std::runtime_error("harness: stage " + kind + " is not available for this stream signature");
+	}
+};
+
+template<class ST>
+void runCaseSig(const Case &c, std::ostream &out)
+{
+	constexpr bool hasReady = ST::template has<scl::Ready>(), hasValid = ST::template has<scl::Valid>(), hasSop = ST::template has<scl::Sop>();
+	DesignScope design;
+	Clock clk({ .absoluteFrequency = 100'000'000 });
+	ClockScope cs(clk);
+
+	ST in{ UInt(BitWidth(c.w * c.min)) };
+	txid(in) = BitWidth(c.mw);
+	pinIn(in, "in");
+	std::vector<std::unique_ptr<ST>> keep;
+	keep.emplace_back(new ST(constructFrom(in)));
+	*keep.back() <<= in;
+	ST *cur = keep.back().get();
+	size_t digits = c.min;
+	for (const std::string &tok : c.chain) {
+		std::string kind = tok.substr(0, 2);
+		size_t arg = tok.size() > 2 ? strtoull(tok.c_str() + 2, nullptr, 10) : 0;
+		keep.push_back(SigStages<ST, true>::apply(kind, arg, *cur, digits, c.w));
+		cur = keep.back().get();
+	}
+	ST &o = *cur;
+	pinOut(o, "out");
+	// the library's own view of "this stream offers a beat": for streams without Valid the derived accessor
+	Bit voObs = valid(o);
+	pinOut(voObs).setName("valid_out_observed");
+	if (c.pp) design.postprocess();
+	out << "C " << c.header << " mout=" << digits << "\n";
+
+	sim::ReferenceSimulator s(false);
+	s.addSimulationProcess([&]()->SimProcess {
+		size_t itemIdx = 0; bool needSop = true;
+		auto take = [&](const PlanLine &p, bool &sopFlag) { PlanLine b = p; sopFlag = false; if (b.v) { sopFlag = needSop; needSop = b.e; } return b; };
+		bool curSop = false;
+		PlanLine curBeat = c.plan.empty() ? PlanLine{} : take(c.plan[0], curSop);
+		auto apply = [&](const PlanLine &beat, bool sopFlag, const PlanLine &ctl) {
+			if constexpr (hasValid) simu(valid(in)) = beat.v ? '1' : '0';
+			if constexpr (hasSop) simu(scl::strm::sop(in)) = sopFlag ? '1' : '0';
+			simu(*in) = packDigits(beat.d, c.w, c.min);
+			simu(eop(in)) = beat.e ? '1' : '0';
+			simu(txid(in)) = beat.m;
+			if constexpr (hasReady) simu(ready(o)) = ctl.r ? '1' : '0';
+		};
+		if (!c.plan.empty()) apply(curBeat, curSop, c.plan[0]);
+		for (size_t i = 0; i < c.plan.size(); i++) {
+			co_await OnClk(clk);
+			const PlanLine &p = c.plan[i];
+			std::string rin = "1";
+			if constexpr (hasReady) rin = bitStr(simu(ready(in)));
+			std::string vo = bitStr(simu(voObs));
+			bool first = hasSop ? curSop : curBeat.v;
+			out << "E " << (first ? 1 : 0) << " " << digitsStr(curBeat.d) << " " << (curBeat.e ? 1 : 0) << " " << curBeat.m << " "
+				<< ((hasReady ? p.r : true) ? 1 : 0) << " - | " << rin << " " << vo << " ";
+			if (vo != "1") out << (hasSop ? "- - - -" : "- - -");
+			else {
+				auto m = simu(txid(o));
+				out << payloadStr(simu(*o).eval(), c.w, digits) << " " << bitStr(simu(eop(o))) << " "
+					<< (m.allDefined() ? std::to_string((uint64_t)m.value()) : std::string("X"));
+				if constexpr (hasSop) out << " " << bitStr(simu(scl::strm::sop(o)));
+			}
+			if constexpr (hasSop) out << " " << bitStr(simu(scl::strm::sop(o))) << "/" << bitStr(simu(eop(o)));
+			out << "\n";
+			if (i + 1 >= c.plan.size()) break;
+			bool keepBeat = hasReady && curBeat.v && rin != "1";
+			if (!keepBeat) {
+				itemIdx++;
+				if (itemIdx < c.plan.size()) curBeat = take(c.plan[itemIdx], curSop);
+				else { curBeat.v = false; curBeat.e = false; curSop = false; }
+			}
+			apply(curBeat, curSop, c.plan[i + 1]);
+		}
+	});
+	s.compileProgram(design.getCircuit());
+	s.powerOn();
+	s.advance(hlim::ClockRational(c.plan.size() + 4, 1) / clk.absoluteFrequency());
+}
+
 void runCase(const Case &c, std::ostream &out)
 {
-	if (c.be) runCaseT<2>(c, out); else if (c.eb) runCaseT<1>(c, out); else runCaseT<0>(c, out);
+	if (c.sig == "rs") runCaseSig<scl::RsPacketStream<UInt, scl::TxId>>(c, out);
+	else if (c.sig == "v") runCaseSig<scl::VPacketStream<UInt, scl::TxId>>(c, out);
+	else if (c.sig == "s") runCaseSig<scl::SPacketStream<UInt, scl::TxId>>(c, out);
+	else if (c.be) runCaseT<2>(c, out); else if (c.eb) runCaseT<1>(c, out); else runCaseT<0>(c, out);
 }
 
 bool parseHeader(const std::string &line, Case &c)
@@ -308,6 +426,7 @@ bool parseHeader(const std::string &line, Case &c)
 		else if (k == "pp") c.pp = v == "1";
 		else if (k == "eb") c.eb = v == "1";
 		else if (k == "be") c.be = v == "1";
+		else if (k == "sig") c.sig = v;
 		else if (k == "prod") c.seq = v == "seq";
 		else if (k == "eopg") c.eopg = strtoull(v.c_str(), nullptr, 10);
 		else if (k == "chain") { c.chain.clear(); if (v != "-") c.chain = split(v, ','); }
